@@ -129,6 +129,17 @@ func registerWeb(p *Program) {
 	}
 	I["(*encoding/json.Decoder).Decode"] = func(in *Interp, fr *frame, a []Value) Value {
 		r := a[0].(Ptr).Obj.Tag.(Iface)
+		if pt, ok := r.T.(*types.Pointer); ok {
+			if mm, ok := r.V.(Ptr).Obj.Tag.(*maxBytesModel); ok && pt != nil {
+				// http.MaxBytesReader: the body is cut off after limit bytes
+				r = mm.inner
+				if size := in.harnessBodySize(r); size != nil {
+					if in.Branch(in.ts.Slt(mm.limit, size)) {
+						return in.newErrorf("http: request body too large")
+					}
+				}
+			}
+		}
 		doc, malformed := in.harnessDoc(r)
 		if malformed {
 			return in.newErrorf("invalid character 'x' looking for beginning of value")
@@ -169,6 +180,12 @@ func registerWeb(p *Program) {
 		return Tuple{sl, Iface{}}
 	}
 
+	I["net/http.MaxBytesReader"] = func(in *Interp, fr *frame, a []Value) Value {
+		t := in.namedType("net/http", "maxBytesReader")
+		o := in.newObj(t)
+		o.Tag = &maxBytesModel{inner: a[1].(Iface), limit: a[2].(*Term)}
+		return Iface{T: types.NewPointer(t), V: Ptr{Obj: o}}
+	}
 	I["vp:vpRemoteURL"] = func(in *Interp, fr *frame, a []Value) Value { return in.strConst("https://master.example/api/update") }
 	// ---- net/http client: an outgoing request is handed to the harness endpoint ----
 	I["net/http.NewRequest"] = func(in *Interp, fr *frame, a []Value) Value {
@@ -406,6 +423,33 @@ func registerWeb(p *Program) {
 		return nil
 	}
 	I["(net/http.Header).Del"] = I["net/http.Header.Del"]
+}
+
+type maxBytesModel struct {
+	inner Iface
+	limit *Term
+}
+
+// harnessBodySize: the size field of a harness request body (nil if it has none).
+func (in *Interp) harnessBodySize(r Iface) *Term {
+	pt, ok := r.T.(*types.Pointer)
+	if !ok {
+		return nil
+	}
+	named, ok := pt.Elem().(*types.Named)
+	if !ok || named.Obj().Name() != "vpBody" {
+		return nil
+	}
+	st := under(named).(*types.Struct)
+	o := r.V.(Ptr)
+	for i := 0; i < st.NumFields(); i++ {
+		if st.Field(i).Name() == "size" {
+			if t, ok := in.loadAt(o.Obj, o.Off+in.fieldOffset(st, i), st.Field(i).Type()).(*Term); ok {
+				return t
+			}
+		}
+	}
+	return nil
 }
 
 type httpReqModel struct {
